@@ -31,6 +31,20 @@ def ctx(src,kind):
                 if isinstance(x,ast.Name) and x.id not in names: names.append(x.id)
         if not names: return None
         return head+"def wrapper_fn(param_a=None):\n"+ind(body)+"    def vf_inner():\n        return ("+", ".join(names[:6])+",)\n    return vf_inner\n"
+    if kind=="global":
+        # the body inside a function that rebinds MODULE-level names: every name the body assigns at its top level is declared global (the factory layout `app = None / def create(): global app; app = ...`)
+        try: t=ast.parse(body)
+        except SyntaxError: return None
+        names=[]
+        for n in t.body:
+            tg=n.targets if isinstance(n,ast.Assign) else ([n.target] if isinstance(n,ast.AnnAssign) and n.value is not None else [])
+            for x in tg:
+                if isinstance(x,ast.Name) and x.id not in names: names.append(x.id)
+        if not names: return None
+        out=head+"".join(f"{nm} = None\n" for nm in names)+"def wrapper_fn(param_a=None):\n    global "+", ".join(names)+"\n"+ind(body)
+        try: compile(out,"<global>","exec")
+        except SyntaxError: return None
+        return out
     if kind=="comprehension":
         # every single-line call statement of the body moves into a comprehension whose loop variables carry the short names rewrites like to generate (p, f, e, x, i, lock, file)
         try: t=ast.parse(body)
